@@ -126,6 +126,8 @@ def main(tier, seed):
                     m_.params = [(kw, ("prim", "u8")), (kw + "_", ("prim", "u16"))] + m_.params
             if i % 2:
                 tooltier.decorate(prog, rng, p_item=0.2)
+            if i % 5 == 2:
+                tooltier.add_zst_error(prog, rng)
             emit_rust.assign_abi_names(prog)
             d = toolrun.fresh_dir(toolrun.workdir("c09", "p%d_%s" % (i, b)))
             src, cfg = tooltier.write_program(prog, d, "")
